@@ -174,9 +174,18 @@ func VerifH_SemCancel() {
 		symx.WaitQuiescent()
 		symx.MustFinish(tw, "the cancelled writer returns")
 		symx.Assert(werr == context.Canceled && ww == nil, "a failed acquire returns its context's error and holds nothing")
-		symx.Assert(symx.Done(tl), "when the cancelled waiter leaves the head, the waiters that now fit are admitted at once")
-		m.ReleaseRead(key, wl)
-		m.ReleaseRead(key, r0)
+		if ratio >= 2 {
+			symx.Assert(symx.Done(tl), "when the cancelled waiter leaves the head, the waiters that now fit are admitted at once")
+			m.ReleaseRead(key, wl)
+			m.ReleaseRead(key, r0)
+		} else {
+			// capacity 1: the first reader fills the key, so the late reader does not fit yet
+			symx.Assert(symx.Blocked(tl), "a waiter that does not fit keeps waiting")
+			m.ReleaseRead(key, r0)
+			symx.WaitQuiescent()
+			symx.MustFinish(tl, "and is admitted when the holder releases")
+			m.ReleaseRead(key, wl)
+		}
 	}
 	symx.Assert(verifEntries(m) == 0, "no residue")
 	symx.Reach("end")
